@@ -302,9 +302,10 @@ def _check_best_point(model: Model, ents, RB: RuleResult):
             raise AnalysisError("%s: to_stop call not at loop-body level" % f.fq)
         # the result goes through get_best_x
         rets = [r for r in own_nodes(f.node) if isinstance(r, ast.Return) and r.value is not None]
-        gb = [n for n in own_nodes(f.node) if isinstance(n, ast.Assign) and isinstance(n.value, ast.Call)
-              and isinstance(n.value.func, ast.Attribute) and n.value.func.attr == "get_best_x"]
-        if gb and rets and all(isinstance(r.value, ast.Name) and r.value.id == gb[-1].targets[0].id for r in rets):
+        from ..flow import origins as _origins
+        _fd = function_defs(f.node)
+        is_gb = lambda o: isinstance(o, ast.Call) and isinstance(o.func, ast.Attribute) and o.func.attr == "get_best_x"
+        if rets and all((lambda os_: bool(os_) and all(is_gb(o) for o in os_))(_origins(r.value, _fd)) for r in rets):
             RB.ok(f.fq, "%s returns terminator.get_best_x(..)" % name)
         else:
             RB.bad(f, rets[0] if rets else f.node, "result does not go through get_best_x (best-point fall-back lost)")
@@ -367,9 +368,13 @@ def _check_best_point(model: Model, ents, RB: RuleResult):
         from ..flow import is_warn_call
         from ..rules.solverloop import enclosing_ifs
         bx = [r for r in rets if ast.unparse(r.value) == "self._best_x"][0]
-        blk_if = [i for i, inbody in enclosing_ifs(bx, get_best.node) if inbody]
-        warned = bool(blk_if) and any(is_warn_call(s, None) for s in blk_if[0].body)
-        cond = bool(blk_if) and "_ever_converge" in ast.unparse(blk_if[0].test)
+        from ..model import effective_conditions
+        conds = effective_conditions(bx)
+        # the fall-back exit is taken only under a condition on the convergence flag, and a warning is issued under (a subset of)
+        # the same conditions before it - whether the function is written as if/else or with guard clauses
+        cond = any("_ever_converge" in t_ for t_, _ in conds)
+        warned = any(is_warn_call(s_, None) and s_.lineno < bx.lineno and set(effective_conditions(s_)) <= set(conds)
+                     for s_ in own_nodes(get_best.node) if isinstance(s_, ast.stmt))
         if warned and cond:
             RB.ok(get_best.fq, "never-converged path warns and returns _best_x; otherwise returns its argument")
         else:
